@@ -5472,27 +5472,33 @@ func (a *Agent) forwardShellClientData(streamID uint64, nextHop identity.AgentID
 			return // Adapter closed
 		}
 
-		// Encrypt data before sending
-		encryptedData, err := sessionKey.Encrypt(data)
-		if err != nil {
-			a.logger.Error("failed to encrypt shell client data",
-				logging.KeyStreamID, streamID,
-				logging.KeyError, err)
-			adapter.Close()
-			return
-		}
+		// Each message is encrypted as a unit and must fit in a single frame.
+		// The CLI sends stdin in small pieces, but a WebSocket client may send
+		// one large STDIN message (e.g. a paste); split it instead of failing
+		// the whole session with ErrFrameTooLarge.
+		for _, msg := range shell.SplitStdin(data, protocol.MaxPayloadSize-crypto.EncryptionOverhead) {
+			// Encrypt data before sending
+			encryptedData, err := sessionKey.Encrypt(msg)
+			if err != nil {
+				a.logger.Error("failed to encrypt shell client data",
+					logging.KeyStreamID, streamID,
+					logging.KeyError, err)
+				adapter.Close()
+				return
+			}
 
-		frame := &protocol.Frame{
-			Type:     protocol.FrameStreamData,
-			StreamID: streamID,
-			Payload:  encryptedData,
-		}
-		if err := a.peerMgr.SendToPeer(nextHop, frame); err != nil {
-			a.logger.Debug("shell client send error",
-				logging.KeyStreamID, streamID,
-				logging.KeyError, err)
-			adapter.Close()
-			return
+			frame := &protocol.Frame{
+				Type:     protocol.FrameStreamData,
+				StreamID: streamID,
+				Payload:  encryptedData,
+			}
+			if err := a.peerMgr.SendToPeer(nextHop, frame); err != nil {
+				a.logger.Debug("shell client send error",
+					logging.KeyStreamID, streamID,
+					logging.KeyError, err)
+				adapter.Close()
+				return
+			}
 		}
 	}
 }
